@@ -1291,3 +1291,172 @@ func init() {
 		rep.Inc("transitions", 8)
 	}
 }
+
+
+// ---------------------------------------------------------------- C03: comparators from one constructor
+
+// Two comparators may be the same code with different captured state (closures from one constructor, one
+// literal evaluated in a loop, method values of two receivers): "the same function" by code address says
+// nothing about the order they define. Every slice up to length 5 over 3 values: built under one, converted
+// to the other, drained.
+type lrOrder struct{ desc bool }
+
+func (o lrOrder) less(a, b hE) bool { return (a.K < b.K) != o.desc && a.K != b.K }
+
+//go:noinline
+func lrMkCmp(desc bool) func(a, b hE) bool {
+	return func(a, b hE) bool {
+		if desc {
+			return a.K > b.K
+		}
+		return a.K < b.K
+	}
+}
+
+func init() {
+	prev := extras["C03"]
+	extras["C03"] = func(rep *core.Report) {
+		if prev != nil {
+			prev(rep)
+		}
+		n := 0
+		pairs := []struct {
+			name     string
+			from, to func(a, b hE) bool
+			ref      func(a, b hE) bool
+		}{
+			{"closures of one constructor, ascending to descending", lrMkCmp(false), lrMkCmp(true), hGreater},
+			{"closures of one constructor, descending to ascending", lrMkCmp(true), lrMkCmp(false), hLess},
+			{"method values of two receivers, ascending to descending", lrOrder{false}.less, lrOrder{true}.less, hGreater},
+		}
+		var vals [][]int
+		var gen func(cur []int)
+		gen = func(cur []int) {
+			vals = append(vals, append([]int{}, cur...))
+			if len(cur) == 5 {
+				return
+			}
+			for v := 1; v <= 3; v++ {
+				gen(append(cur, v))
+			}
+		}
+		gen(nil)
+		for _, pr := range pairs {
+			for _, vs := range vals {
+				n++
+				h := heap.NewHeap(pr.from)
+				var model []hE
+				for i, v := range vs {
+					e := hE{v, i}
+					h.Push(e)
+					model = append(model, e)
+				}
+				h.Convert(pr.to)
+				wit := fmt.Sprintf("heap of %v built under one comparator, Convert to another (%s), drained", vs, pr.name)
+				if msg := drainCheck(h, pr.ref, model); msg != "" {
+					rep.Add("Heap.order/after-Convert/comparators-sharing-code/pop-sequence-"+drainCls(msg), msg, wit, nil)
+					break
+				}
+			}
+		}
+		rep.Inc("transitions", n*6)
+	}
+}
+
+
+// ---------------------------------------------------------------- C05 / C07: more shapes (round 6)
+
+func init() {
+	prev5 := extras["C05"]
+	extras["C05"] = func(rep *core.Report) {
+		prev5(rep)
+		// Search on queues that have just crossed a size at which a lookup structure might be built or
+		// dropped: distinct values 1..n, every value of the last 40 and a sample of the others searched
+		// right after the Enqueue that brought the queue to n elements, and again after shrinking
+		for _, comp := range []string{"Queue", "LQueue"} {
+			for _, n := range []int{255, 256, 257, 1023, 1024, 1025, 1026, 2049, 4097} {
+				if comp == "LQueue" && n > 1100 {
+					continue // the linked queue walks its list on every Enqueue
+				}
+				wit := fmt.Sprintf("%s: Enqueue of the distinct values 1..%d, Search after each of the last Enqueues", comp, n)
+				var q fifo
+				lo := 1
+				if comp == "Queue" {
+					q = sliceQ{queue.New[int]()}
+				} else {
+					q = linkedQ{queue.NewLinked[int](1)}
+					lo = 2
+				}
+				bad := false
+				for v := lo; v <= n && !bad; v++ {
+					q.Enqueue(v)
+					if v >= n-40 {
+						for _, probe := range []int{v, v - 1, 1, v / 2, v + 1} {
+							if got, want := q.Search(probe), probe >= 1 && probe <= v; got != want {
+								rep.Add(comp+".Search/long-run/size-threshold", fmt.Sprintf("with the values 1..%d held, Search(%d) = %t", v, probe, got), wit, nil)
+								bad = true
+								break
+							}
+						}
+					}
+				}
+				for k := 1; k <= n-200 && !bad; k++ { // shrink to 200 and ask again
+					q.Dequeue()
+					if k%97 == 0 || k == n-200 {
+						for _, probe := range []int{k, k + 1, n, n + 1} {
+							if got, want := q.Search(probe), probe > k && probe <= n; got != want {
+								rep.Add(comp+".Search/long-run/size-threshold", fmt.Sprintf("with the values %d..%d held, Search(%d) = %t", k+1, n, probe, got), wit, nil)
+								bad = true
+								break
+							}
+						}
+					}
+				}
+				rep.Inc("transitions", 2*n)
+			}
+		}
+	}
+	prev7 := extras["C07"]
+	extras["C07"] = func(rep *core.Report) {
+		if prev7 != nil {
+			prev7(rep)
+		}
+		// the largest capacity there is: "practically unbounded"
+		if c, err := cache.NewLRU[int, int](math.MaxInt); err != nil {
+			rep.Add("LRU.NewLRU/long-run/error", fmt.Sprintf("NewLRU(MaxInt): %v", err), "NewLRU(MaxInt)", nil)
+		} else {
+			for k := 1; k <= 5; k++ {
+				if _, _, removed := c.Add(k, k); removed || c.Count() != k {
+					rep.Add("LRU.Add/long-run/spurious-eviction", fmt.Sprintf("NewLRU(MaxInt): Add number %d evicted=%t, Count = %d", k, removed, c.Count()), "NewLRU(MaxInt); Add x5", nil)
+					break
+				}
+			}
+		}
+		// a cache used through a COPY of the exported struct (v := *c): the copy is a cache like any other
+		for fill := 0; fill <= 3; fill++ {
+			c, _ := cache.NewLRU[int, int](2)
+			for k := 1; k <= fill; k++ {
+				c.Add(k, k*10)
+			}
+			v := *c
+			wit := fmt.Sprintf("c := NewLRU(2); Add x%d; v := *c; then v is used", fill)
+			held := fill
+			if held > 2 {
+				held = 2
+			}
+			if _, _, ok := v.GetOldest(); ok != (held > 0) || v.Count() != held {
+				rep.Add("LRU.GetOldest/copied-struct", fmt.Sprintf("on the copy: GetOldest ok=%t, Count=%d, want %d entries", ok, v.Count(), held), wit, nil)
+				continue
+			}
+			gk, _, removed := v.Add(9, 90)
+			// (GetOldest has just refreshed the oldest entry: the other one, key `fill`, is the one to go)
+			if want := fill >= 2; removed != want || (removed && gk != fill) {
+				rep.Add("LRU.Add/copied-struct/evicts-wrong-entry", fmt.Sprintf("on the copy: Add(9) evicted (%d,%t), want evicted=%t key %d", gk, removed, want, fill), wit, nil)
+			}
+			if g, ok := v.Get(9); !ok || g != 90 {
+				rep.Add("LRU.Get/copied-struct", fmt.Sprintf("on the copy: Get(9) = (%d,%t) right after Add", g, ok), wit, nil)
+			}
+		}
+		rep.Inc("transitions", 30)
+	}
+}
